@@ -7,8 +7,10 @@
     - [code], [exec_code] : the call shapes the harness can build out of its hand-assembled helper
       contracts (harness/cmd/c17/asm.go): a forwarding proxy (CALL / DELEGATECALL / STATICCALL /
       CALLCODE, optionally ignoring a failing inner call, reverting afterwards, or calling twice;
-      it increments its storage slot 0 first), a log emitter (arbitrary topics and data from its own
-      address) and the system contracts themselves.  A frame knows its address ([fx_self], the
+      it increments its storage slot 0 first), a batch contract (increments its slot 0, then performs
+      a LIST of calls — each with its own target, call kind, call data and ignore-failure flag — in
+      order, from ONE frame: [CSeq] ... [CStop]), a log emitter (arbitrary topics and data from its
+      own address) and the system contracts themselves.  A frame knows its address ([fx_self], the
       address LOGs carry), its [msg.sender] and whether it runs under STATICCALL. *)
 From Teleport Require Import Base.Bytes Base.Outcome Model.Adapter.
 Local Open Scope N_scope.
@@ -56,7 +58,10 @@ Inductive ckind := KCall | KDelegateCall | KStaticCall | KCallCode.
 Inductive code :=
 | CSys (h : hkind) (f : sysfn)          (* byte code of system contract [h], entered with call data "f(args)" *)
 | CEmit (topics : list bytes) (data : bytes)
-| CProxy (k : ckind) (ignore_fail then_revert twice : bool) (target : bytes) (inner : code).
+| CProxy (k : ckind) (ignore_fail then_revert twice : bool) (target : bytes) (inner : code)
+| CStop                                  (* batch contract: end of its call list *)
+| CSeq (k : ckind) (ignore_fail : bool) (target : bytes) (inner : code) (rest : code).
+                                         (* batch contract: call [target] (code [inner]), then go on with [rest] in the SAME frame *)
 
 Record fctx := { fx_self : bytes; fx_sender : bytes; fx_static : bool }.
 
@@ -107,6 +112,18 @@ Fixpoint exec_code (c : code) (x : fctx) : fres :=
           let rr := if twice then fapp r1 r1 else r1 in
           if rev then ffail
           else {| fr_ok := true; fr_logs := fr_logs rr; fr_ctr := fx_self x :: fr_ctr rr; fr_inv := fr_inv rr |}
+  | CStop =>
+      if fx_static x then ffail                                    (* SSTORE under STATICCALL *)
+      else {| fr_ok := true; fr_logs := []; fr_ctr := [fx_self x]; fr_inv := [] |}
+  | CSeq k ign target inner rest =>
+      if fx_static x then ffail
+      else
+        let r := exec_code inner (child_ctx k target x) in
+        if negb (fr_ok r) && negb ign then ffail                   (* the batch reverts: everything before is undone too *)
+        else
+          let r1 := if fr_ok r then r else {| fr_ok := true; fr_logs := []; fr_ctr := []; fr_inv := [] |} in
+          let r2 := exec_code rest x in
+          if fr_ok r2 then fapp r1 r2 else ffail
   end.
 
 (** a user transaction: externally owned [tx_sender] calls address [tx_to] whose code is [tx_code]
@@ -126,9 +143,14 @@ Definition code_at_ok (a : bytes) (c : code) : bool :=
   | _ => negb (is_sys_addr a)
   end.
 
+(** what may follow a call in a batch contract's list: the next call or the end *)
+Definition is_batch_tail (c : code) : bool :=
+  match c with CStop | CSeq _ _ _ _ _ => true | _ => false end.
+
 Fixpoint wf_code (c : code) : bool :=
   match c with
   | CProxy _ _ _ _ target inner => code_at_ok target inner && wf_code inner
+  | CSeq _ _ target inner rest => code_at_ok target inner && wf_code inner && is_batch_tail rest && wf_code rest
   | _ => true
   end.
 
